@@ -441,6 +441,7 @@ type Clause struct {
 	Line  string // file:line
 	Props []string
 	Except []string // modifies memory except T1 T2: struct types whose fields are preserved
+	LoopFn string   // loop callee.N invariant: the loop belongs to the (inlined) callee of that name
 }
 
 type Contract struct {
@@ -705,7 +706,14 @@ func parseSpecFile(path, text, pkg string, trusted bool) (*SpecFile, error) {
 			if len(f) < 3 {
 				return nil, fmt.Errorf("%s: bad loop clause", loc)
 			}
-			fmt.Sscanf(f[0], "%d", &n)
+			loopFn := ""
+			if i := strings.LastIndex(f[0], "."); i >= 0 {
+				// loop callee.N: loop N of a callee that is inlined into this function
+				loopFn = f[0][:i]
+				fmt.Sscanf(f[0][i+1:], "%d", &n)
+			} else {
+				fmt.Sscanf(f[0], "%d", &n)
+			}
 			k2 = f[1]
 			body := strings.TrimSpace(strings.SplitN(rest, k2, 2)[1])
 			if k2 != "invariant" && k2 != "hint" {
@@ -717,9 +725,9 @@ func parseSpecFile(path, text, pkg string, trusted bool) (*SpecFile, error) {
 				return nil, fmt.Errorf("%s: %v", loc, err)
 			}
 			if k2 == "hint" {
-				cur.Hints = append(cur.Hints, &Clause{Kind: "hint", Label: label, Text: body, Expr: e, Loop: n, Line: loc})
+				cur.Hints = append(cur.Hints, &Clause{Kind: "hint", Label: label, Text: body, Expr: e, Loop: n, Line: loc, LoopFn: loopFn})
 			} else {
-				cur.Invs = append(cur.Invs, &Clause{Kind: "invariant", Label: label, Text: body, Expr: e, Loop: n, Line: loc, Props: cprops})
+				cur.Invs = append(cur.Invs, &Clause{Kind: "invariant", Label: label, Text: body, Expr: e, Loop: n, Line: loc, Props: cprops, LoopFn: loopFn})
 			}
 		case "spec":
 			// spec name(a T, b U) R
